@@ -381,14 +381,41 @@ fn scope_cases() -> Vec<Json> {
     ];
     let src = "src := (k: mut int) -> int|string { if *k < 2 { return *k; } return \"end\"; }; h := () -> string { return \"text\"; }; ";
     let mut out = vec![];
+    // constructs binding a name `z` that is declared nowhere else, at the top level of a module: `z` is
+    // not a field of the module (a type test on the module value tells)
+    for b in [
+        "n := match 5 { z: int => 1, => 0, }",
+        "if z: int = 5 { z + 1 }",
+        "k := mut 0; while z: int = src(k) { k += 1; }",
+        "for z in [1, 2]~ { z + 1 }",
+        "for i in [1, 2]~ { for z in [true]~ { z } }",
+        "{ z := 5; z + 1 }",
+        "n := { z := 5; z }",
+        "if true { z := 5; }",
+        "loop { z := 5; break; }",
+        "g := (z: int) -> int { return z + 1; }; g(1)",
+        "m := mod { z := 5; }",
+        "(() { z := 5; })()",
+        "[1]~ @ (z: int) -> int { return z; } $]",
+        "{ (z, w) := (5, 6); }",
+        "[1, 2]~ $ 0 (z: int, w: int) -> int { return z + w; }",
+    ] {
+        let probe = |extra: &str| format!("{src}m0 := mod {{ a := h(); {extra}}}; x := match m0 {{ s: struct{{a: string, z: any}} => \"z is a field\", => \"no z\", }}; (x, m0.a)");
+        out.push(json!({"kind": "scope", "with": probe(&format!("{b}; ")), "without": probe("")}));
+        // and in a function body / at the top level the name is unknown afterwards
+        out.push(json!({"kind": "scope", "with": format!("{src}f := () -> any {{ {b}; return z; }}; f()"), "without": format!("{src}f := () -> any {{ return z; }}; f()")}));
+        out.push(json!({"kind": "scope", "with": format!("{src}{b}; z"), "without": format!("{src}z")}));
+    }
     for b in binders {
+        // (the outer `v` is a string and is used as a string afterwards; modules are compared field by field)
         for (decl, wrap_open, wrap_close, last) in [
-            ("", "f := (v: string) -> any { ", "return v; }; f(\"text\")", ""),
-            ("v := h(); ", "", "", "v"),
-            ("v := \"text\"; ", "", "", "v"),
-            ("", "m0 := mod { v := h(); ", "r := v; }; m0.r", ""),
-            ("v := h(); ", "f := () -> any { ", "return v; }; f()", ""),
-            ("", "f := () -> any { v := h(); g0 := () -> any { return v; }; ", "return g0(); }; f()", ""),
+            ("", "f := (v: string) -> any { ", "return v + \"!\"; }; f(\"text\")", ""),
+            ("", "f := (v: string) -> string { ", "return v; }; f(\"text\")", ""),
+            ("v := h(); ", "", "", "v + \"!\""),
+            ("v := \"text\"; ", "", "", "v + \"!\""),
+            ("", "m0 := mod { v := h(); ", "r := v + \"!\"; }; (m0.v, m0.r)", ""),
+            ("v := h(); ", "f := () -> any { ", "return v + \"!\"; }; f()", ""),
+            ("", "f := () -> any { v := h(); g0 := () -> string { return v; }; ", "return g0(); }; f()", ""),
         ] {
             let with = format!("{src}{decl}{wrap_open}{b}; {wrap_close}{last}");
             let without = format!("{src}{decl}{wrap_open}{wrap_close}{last}");
